@@ -10,8 +10,10 @@ Ltac all_cases i :=
   | x : bool |- _ => destruct x end.
 Ltac spec_norm := spec_unfold; cbv_struct;
   cbv beta iota zeta delta [add8 sub8 and8 or8 xor8 inc8 dec8 neg8 cpl8 daa8 rotcb rota rot8 rld8 rrd8 add16 adc16 sbc16]; cbv_struct.
+Ltac destruct_var_ifs := repeat match goal with |- context [if ?c then _ else _] => is_var c; destruct c end.
+Ltac split_ifs := repeat (progress destruct_var_ifs; spec_norm); repeat (progress destruct_ifs; spec_norm).
 Ltac close_case := first [syn_refl | solve [repeat f_equal; syn_refl]
-                          | solve [destruct_ifs; spec_norm; first [syn_refl | repeat f_equal; syn_refl]]].
+                          | solve [split_ifs; first [syn_refl | repeat f_equal; syn_refl]]].
 
 Definition swapXY (cpu : CPU) : CPU := s_IY (s_IX cpu (g_IY cpu)) (g_IX cpu).
 Definition writes_ir (i : instr) : bool := match i with LD_I_A | LD_R_A => true | _ => false end.
